@@ -84,6 +84,10 @@ def r1_tmp_provenance(repo=None):
                 src, _ = clib.build_string(fn, c.args[0].path(), before=c)
                 if clib.shape(src) == expected_tmp:
                     r.ok("%s:%s %s %s" % (LIB, c.line, fname, c.callee), "only the tmp path is removed")
+                elif _own_exclusive_create(fn, c):
+                    r.ok("%s:%s %s %s(%s)" % (LIB, c.line, fname, c.callee, "".join(clib.shape(src))),
+                         "removes only the file this same call created with H5F_ACC_EXCL (creation succeeded on every "
+                         "path to the remove)")
                 else:
                     r.violation(LIB, fname, "%s(%s)" % (c.callee, "".join(clib.shape(src))),
                                 "a path other than the in-progress tmp file is deleted", line=c.line)
@@ -92,6 +96,47 @@ def r1_tmp_provenance(repo=None):
                             % (n_create, n_rename, n_remove))
     r.guard(4)
     return r
+
+
+def _own_exclusive_create(fn, rm):
+    """remove(path) is acceptable when the same function created `path` itself with H5F_ACC_EXCL on every path to
+    the remove and the create's failure branch cannot reach the remove."""
+    g = _cfg.build_c(fn)
+    var = rm.args[0].path()
+
+    def node_of(x):
+        best = None
+        for n in g.nodes:
+            if n.ast is not None and n.kind in ("stmt", "cond", "return") and n.ast.begin <= x.begin and x.end <= n.ast.end:
+                if best is None or (n.ast.end - n.ast.begin) < (best.ast.end - best.ast.begin):
+                    best = n
+        return best
+
+    R = node_of(rm)
+    creates = [c for c in fn.calls(("H5Fcreate",)) if c.args[0].path() == var and "H5F_ACC_EXCL" in c.args[1].nsrc]
+    if not creates or R is None:
+        return False
+    K = [node_of(c) for c in creates]
+    if R.id in g.reach([g.entry.id], avoid=[k.id for k in K]):
+        return False
+    for c in creates:
+        use = clib.status_usage(c)
+        if not use.startswith("assigned:"):
+            return False
+        hv = use.split(":", 1)[1]
+        tested = False
+        for n in g.nodes:
+            if n.kind == "cond" and n.ast is not None:
+                e = n.ast.strip()
+                if e.kind == "BinaryOperator" and e.opcode == "<" and e.children[0].path() == hv \
+                        and e.children[1].intval() == 0:
+                    tested = True
+                    fail = [b for b, l in g.succ[n.id] if l == "T"]
+                    if R.id in g.reach(fail):
+                        return False
+        if not tested:
+            return False
+    return True
 
 
 def publish_sites(tu):
